@@ -224,10 +224,17 @@ class C09(Check):
                    'dist.update is compared through distogram.count / bounds / mean / bins against a reference fold with the same library']
     ANCHORS = ['rxsci/operators/scan.py', 'rxsci/operators/count.py', 'rxsci/data/to_list.py', 'rxsci/data/to_array.py', 'rxsci/math/dist/__init__.py']
     REQUIRED_TAGS = ['plain', 'mux', 'group', 'roll', 'roll_eq', 'split', 'time_split', 'generic', 'named', 'reduce', 'streaming', 'terminator',
-                     'factory', 'value-seed', 'mutable', 'empty-lifetime', 'scale', 'numpy-items', 'numpy-vector-items', 'factory-that-is-not-a-function', 'exact-number-items'] + ['history-fed-more-than-the-judged-stream'] + PRELUDE_TAGS + ['op=' + n[0] for n in NAMED]
+                     'factory', 'value-seed', 'mutable', 'empty-lifetime', 'scale', 'numpy-items', 'numpy-vector-items', 'reduce-flag-given-as-a-non-bool', 'factory-that-is-not-a-function', 'exact-number-items'] + ['history-fed-more-than-the-judged-stream'] + PRELUDE_TAGS + ['op=' + n[0] for n in NAMED]
     REQUIRED_OBSERVED = ['triples_of_staggered_subscriptions', 'accumulator_calls', 'terminator_calls', 'factory_calls', 'lifetimes_checked', 'identity_checks']
 
     def generate(self, rng, tier, shard, nshards):
+        r3 = random.Random(rng.randrange(1 << 30))
+        for case in self._generate0(rng, tier, shard, nshards):
+            if r3.random() < 0.12 and len(case.get('items', ())) <= 100:
+                case = dict(case, reduce_as=r3.choice(['numpy', 'int']))
+            yield case
+
+    def _generate0(self, rng, tier, shard, nshards):
         return with_prelude(self._generate(rng, tier, shard, nshards), rng, size=lambda c: len(c['items']))
 
     def _generate(self, rng, tier, shard, nshards):
@@ -311,7 +318,7 @@ class C09(Check):
         probe.factory_form = case.get('factory_form', 'function')
         if probe.is_factory and probe.factory_form != 'function':
             out.tags.append('factory-that-is-not-a-function')
-        mk = lambda: rs.ops.scan(probe.accumulator, probe.seed_arg(), reduce=reduce, terminator=probe.terminator())   # noqa: E731
+        mk = lambda: rs.ops.scan(probe.accumulator, probe.seed_arg(), reduce=self._flag(reduce, case, out), terminator=probe.terminator())   # noqa: E731
         if case['ctx'] == 'plain':
             for tag in ('H', 'T', 'R'):
                 log.append((tag, 'C', 'plain', None))
@@ -453,9 +460,26 @@ class C09(Check):
         return out
 
     # -- operators defined through scan -----------------------------------
-    def _named_builder(self, node):
+    @staticmethod
+    def _flag(value, case, out=None):
+        """the reduce flag as the case wants it given: True / False, or an on / off value that is not one of these two objects - a
+        numpy.bool_ read from a settings table, a 0 / 1 from a command line"""
+        how = case.get('reduce_as')
+        if not how or not isinstance(value, bool):
+            return value
+        if out is not None and 'reduce-flag-given-as-a-non-bool' not in out.tags:
+            out.tags.append('reduce-flag-given-as-a-non-bool')
+        if how == 'numpy':
+            import numpy
+            return numpy.bool_(value)
+        return int(value)
+
+    def _named_builder(self, node, case=None, out=None):
+        case = case or {}
         if node[0] == 'dist.update':
-            return lambda: rs.math.dist.update(bin_count=8, reduce=node[1])
+            return lambda: rs.math.dist.update(bin_count=8, reduce=self._flag(node[1], case, out))
+        if len(node) > 1 and isinstance(node[1], bool) and node[0] not in ('batch', 'take', 'lag'):
+            return lambda: progs.build_node([node[0], self._flag(node[1], case, out)] + list(node[2:]))
         return lambda: progs.build_node(node)
 
     def _named_expected(self, node, xs):
@@ -510,7 +534,7 @@ class C09(Check):
 
     def _eval_named_inner(self, case, out, node, ctx, log):
         if ctx == 'plain':
-            op_ = self._named_builder(node)()
+            op_ = self._named_builder(node, case, out)()
             s = progs.run_obs(lambda src: src.pipe(op_), case['items'], prelude=case.get('prelude'))
             if s.err is not None and node[0] == 'mean' and node[1] and not case['items']:
                 out.discarded = 'mean(reduce) of an empty observable'
@@ -536,7 +560,7 @@ class C09(Check):
                         out.fail('differs-from-definition-with-staggered-streams-through-one-operator', op=node, how=how, items=case['items'])
                         break
             return out
-        s = run_ctx(case['ctx_node'], self._named_builder(node), case['items'], log, prelude=case.get('prelude'))
+        s = run_ctx(case['ctx_node'], self._named_builder(node, case, out), case['items'], log, prelude=case.get('prelude'))
         lts = self._lifetimes(log, out) if s.err is None else None
         # mean(reduce) of an empty key is outside the domain: decide from the observed lifetimes
         if node[0] == 'mean' and node[1]:
